@@ -22,6 +22,8 @@ func init() {
 			"Decides these necessary conditions; does not decide window/refill arithmetic over timings.",
 		Run: runC18,
 		Mutants: []Mutant{
+			{Name: "take-without-refill", File: "internal/security/rate_limiter.go", Rule: "R-C18-6",
+				Old: "\t// 填充令牌\n\tb.refill()\n\n\t// 检查是否有足够的令牌\n", New: "\t// 检查是否有足够的令牌\n"},
 			{Name: "mismatch-not-recorded", File: "internal/app/server/auth_handler.go", Rule: "R-C18-1",
 				Old: "\t\tcorelog.Warnf(\"ServerAuthHandler: challenge-response verification failed for client %d\", req.ClientID)\n\t\tif h.bruteForceProtector != nil {\n\t\t\th.bruteForceProtector.RecordFailure(ip)\n\t\t}\n", New: "\t\tcorelog.Warnf(\"ServerAuthHandler: challenge-response verification failed for client %d\", req.ClientID)\n"},
 			{Name: "unknown-client-not-recorded", File: "internal/app/server/auth_handler.go", Rule: "R-C18-1",
